@@ -1,10 +1,13 @@
 SPECIFICATION Spec
 CONSTANTS
   InteriorRule = "sum"
-  TriLo = 0
-  TriHi = 1
+  BLo = 0
+  BHi = 2
+  TriLo <- Minus1
+  TriHi = 2
   PtLo <- Minus1
   PtHi = 2
   Shifts <- ShiftSet
+  TriSel <- QuickTris
 INVARIANTS Contract RotInv TransInv TwentyFour
 CHECK_DEADLOCK FALSE
